@@ -123,13 +123,14 @@ PROPS["C11"] = {
 }
 PROPS["C09"] = {
     "technique": "Lean 4 theorems on the matcher/report bookkeeping and the zipper's map bookkeeping + regenerated go/ast facts + oracle on the real zipper maps",
-    "lean_modules": ["SfwModel.Props.C09", "SfwModel.Props.C09Zipper", "SfwModel.Props.C09Facts"],
-    "suites": [{"name": "diffreport", "quick": 10, "thorough": 150, "timeout": 3000}],
+    "lean_modules": ["SfwModel.Props.C09", "SfwModel.Props.C09Zipper", "SfwModel.Props.C09Facts", "SfwModel.Props.C09Equiv"],
+    "suites": [{"name": "diffreport", "quick": 10, "thorough": 150, "timeout": 3000}, {"name": "zipeq", "quick": 4, "thorough": 40, "timeout": 3000}],
     "required_theorems": ["C09_old_partition", "C09_new_partition", "C09_same_name_paired", "C09_byName_iff",
                           "C09_summary_counts", "C09_lockstep_reachable", "C09_one_to_one", "C09_accounting",
-                          "C09_unguarded_breaks", "C09_single_writer", "C09_matchUsers_guarded"],
+                          "C09_unguarded_breaks", "C09_single_writer", "C09_matchUsers_guarded",
+                          "C09_equivalent_same_kind", "C09_equivalent_same_type", "C09_equivalent_same_arity"],
     "level_text": "Kernel-checked on the model of MatchFunctionsByTopology + ComputeDiff's bookkeeping: every old and every new function lies in exactly one of matched/added/removed (for all lists with distinct short names and every threshold), name-identical functions are paired by name, by-name pairs have equal names, summary counters equal the entry counts. Tie: generated old/new file pairs (kept/edited/renamed/same-shape renamed/added/removed functions, methods, closures) through the real cli.ComputeDiff; the matched/added/removed partition is compared with the Lean model fed the real function lists and topologies, and every clause is evaluated on the real report. Last clause (instruction level): the real Zipper is run on every paired function and its forward/reverse instruction maps (hook) are checked to be inverse bijections between same-kind, same-type instructions, with MatchedNodes and the added/removed lists recomputed from the maps.",
-    "level_note": "PARTIAL: for the instruction-level clause Lean proves the BOOKKEEPING (every sequence of guarded proposals keeps the two maps inverse, hence one-to-one; matched + removed = old, matched + added = new; the unguarded variant is refuted) and regenerated go/ast facts pin that recordInstrMatch is the only writer and that matchUsers checks both maps; WHICH pairs are proposed (areEquivalent: kind, type, operands) is decided by the run-time oracle on the real maps, not modelled. Trusted: Lean kernel; float64 vs Rat similarity (near-ties skipped and counted); hook VerifInstrMaps.",
+    "level_note": "PARTIAL: for the instruction-level clause Lean proves the BOOKKEEPING (every sequence of guarded proposals keeps the two maps inverse, hence one-to-one; matched + removed = old, matched + added = new; the unguarded variant is refuted) and regenerated go/ast facts pin that recordInstrMatch is the only writer and that matchUsers checks both maps; the equivalence test itself (areEquivalent: kind, type identity, operator fields, operands through the value map, gated commutativity, the phi rule) is modelled in Model/ZipEquiv.lean and tied to the real Zipper DECISION BY DECISION through a trace hook (thousands of decisions per run, taken in the live state); theorems: equivalent instructions have the same kind, identical types, same arity and operator fields. Not modelled: the ORDER in which pairs are proposed (fingerprint buckets, sort.Sort tie-breaks) - covered by the bookkeeping theorems, which hold for every order. Trusted: Lean kernel; float64 vs Rat similarity (near-ties skipped and counted); hook VerifInstrMaps.",
     "partial": "zipper instruction matching is checked by oracle on the real maps, not proved",
     "trusted_base": ["go/ssa construction; topology.ExtractTopology (fed to the model as data)", "hook VerifInstrMaps (read-only accessor)"],
 }
@@ -200,12 +201,15 @@ PROPS["C03"] = {
 }
 PROPS["C04"] = {
     "technique": "Lean 4 proof of CompareFunctions' decision logic + native execution of (old, new) pairs against the real diff status",
-    "suites": [{"name": "collide", "quick": 8, "thorough": 50, "timeout": 3000}],
-    "lean_modules": ["SfwModel.Props.C04", "SfwModel.Props.C09Zipper"],
+    "suites": [{"name": "collide", "quick": 8, "thorough": 50, "timeout": 3000}, {"name": "zipeq", "quick": 4, "thorough": 40, "timeout": 3000}],
+    "also": ["C09"],   # the zipeq suite tags its correspondence violations C09
+    "lean_modules": ["SfwModel.Props.C04", "SfwModel.Props.C09Zipper", "SfwModel.Props.C09Equiv"],
     "required_theorems": ["C04_preserved_iff", "C04_identical_copy_preserved", "C04_oversized_never_zipper_preserved",
-                          "C04_unmatched_means_modified", "C04_zipper_preserved_same_size", "C04_constant_marker_was_unsound"],
+                          "C04_unmatched_means_modified", "C04_zipper_preserved_same_size", "C04_constant_marker_was_unsound",
+                          "C04_equivalent_same_operator", "C04_equivalent_operands", "C04_equivalent_operands_swapped",
+                          "C04_swap_guard", "C04_mapped_operand_respected"],
     "level_text": "Kernel-checked decision logic of CompareFunctions: the verdict is `preserved` iff the fingerprints are equal, or neither side is oversized and the zipper left nothing added and nothing removed; identical copies are preserved; an oversized function is never waved through by the zipper; any unmatched instruction means modified; zipper-preserved pairs have equally many instructions (bookkeeping theorems of C09). Behavioural tie: for every generated (old,new) pair whose native outputs differ on some input, and for the specials (exchanged if/else bodies, oversized edit, callee swap, select, nested loop variables), the real cli.CompareFunctions / ComputeDiff status must not be preserved; every function compared with a separately compiled copy of itself must be preserved with nothing added or removed.",
-    "level_note": "PARTIAL: that fingerprint equality and an empty zipper difference imply equal behaviour is C03's open half; here it is searched by native execution. Known finding shared with C03 (select cases).",
+    "level_note": "PARTIAL: that fingerprint equality and an empty zipper difference imply equal behaviour is C03's open half; here it is searched by native execution. The zipper's equivalence test is modelled and tied decision by decision (trace hook); theorems say what a positive decision guarantees (same operator fields; every operand already mapped to its partner or a non-linkable value with the same canonical text; swaps only for commutative numeric ops and ==/!=). Known finding shared with C03 (select cases).",
     "partial": "soundness of the two routes to `preserved` rests on C03 / the zipper's equivalence relation, searched by native execution",
     "trusted_base": ["the Go compiler and runtime (native execution)", "diff.Zipper's areEquivalent (exercised, not modelled)"],
 }
@@ -237,4 +241,4 @@ _PENDING = "check not built yet in this round (planned: Lean model + theorems + 
 # entries with "unclaimed": True are runnable (./check Cxx) but not yet claimed in MANIFEST.json
 NOT_APPLICABLE = {p: _PENDING for p in ["C%02d" % i for i in range(1, 21)] if p not in PROPS or PROPS[p].get("unclaimed")}
 HOOK_COMMITS = ["62f4a35bbfb762f168515cd7c5338c1c6cff78cc", "8ba54fa04b0057593bc8f1f66ad8aa6e22db7412",
-                "3d3870806691e3d1380ce61acaa03447408c434f"]
+                "3d3870806691e3d1380ce61acaa03447408c434f", "ec37b7d789aa05b65a1eb90bfca12bce64489004"]
